@@ -43,6 +43,7 @@ static Plan gen_sorter(const std::string &prop, const std::string &tier, uint64_
 	uint64_t d = r.below(10);
 	size_t mm = d < 2 ? 1 : d < 7 ? 16 + r.below(total / (1 + r.below(12)) + 32) : d < 9 ? total + 1000 : 0;
 	p.seti("maxmem", mm);
+	p.seti("maxmem_zero", mm == 0 && r.chance(1, 3) ? 1 : 0);	// ask for 0 bytes: clamped to the minimum
 	p.seti("pool", r.chance(1, 2) ? -1 : (long long)(r.chance(1, 10) ? 5 + r.below(4) : r.below(5)));
 	p.set("sched", sched_cfg_gen(r, 1200));
 	p.seti("finish", r.chance(2, 3) ? 0 : 1);
@@ -81,6 +82,7 @@ static RunResult exec_sorter(const Plan &p)
 	}
 	res.probes[std::string("tmpdir-shape-") + std::to_string(shape)]++;
 	s.max_mem = (size_t)p.geti("maxmem", 0);
+	s.set_zero = p.geti("maxmem_zero", 0) != 0;
 	s.finish = (int)(p.geti("finish", 0) % 2);
 	s.late_calls = p.geti("late", 0) != 0;
 	if (p.geti("abandon", -1) >= 0 && s.finish == 0) s.abandon_after = (size_t)p.geti("abandon");
